@@ -415,8 +415,8 @@ def fs_oracle(toks, lines):
     mt = lambda s: None if s[0] == 'A' else (s[3] if s[0] == 'F' else s[1])
     names = {'E': 'ExistsChecker', 'M': 'ModifiedChecker', 'H': 'HashChecker'}
     for c in 'EMH':
-        r = d.get(('r', c)); u = d.get(('u', c)); k = d.get(('k', c)); w = d.get(('w', c))
-        if r is None or u is None or k is None or w is None:
+        r = d.get(('r', c)); u = d.get(('u', c)); k = d.get(('k', c)); w = d.get(('w', c)); w2 = d.get(('w2', c))
+        if r is None or u is None or k is None or w is None or (s1[0] != 'D' and w2 is None):
             return 'probe output incomplete for checker %s' % c
         if r[0] != 'eq=1':
             return '%s: stamp from the path and stamp from a fresh reader differ in state %r' % (names[c], s1)
@@ -429,6 +429,7 @@ def fs_oracle(toks, lines):
         else:
             if w[0] != 'eq=1': return '%s: stamp from a just-used writer differs from a stamp of the path in the same state' % names[c]
             if w[1] != 'content=1': return 'opening for writing did not create/truncate the file (state %r)' % (s1,)
+            if w2[0] != 'content=1': return 'a second, shorter write of the same path through the same Pie did not truncate the file (state %r)' % (s1,)
         exp = None
         if c == 'E': exp = ex(s1) != ex(s2)
         elif c == 'M': exp = mt(s1) != mt(s2)
